@@ -118,11 +118,18 @@ try:
                     res["status"] = "reported"
                     res["by"] = [k[len("violated "):][:110] for k in new[:2]]
                     break
-            if res["status"] == "unreported" and args.tests and (rel.startswith("internal/") or rel.startswith("quicvarint/") or rel.startswith("http3/")):
-                env = dict(os.environ, GOFLAGS="-mod=mod", GOPROXY="off")
-                t = subprocess.run(["go", "test", "-mod=mod", "-vet=off", "-count=1", "-timeout", "240s", "./" + os.path.dirname(rel) + "/"], cwd=repo, env=env, capture_output=True, text=True)
+            if res["status"] == "unreported" and args.tests:
+                env = dict(os.environ, GOFLAGS="-mod=mod", GOPROXY="off", GOEXPERIMENT="synctest")
+                if rel.startswith("internal/") or rel.startswith("quicvarint/"):
+                    pk = ["./" + os.path.dirname(rel) + "/"]
+                    label = "unreported, killed by the package's unit tests"
+                else:
+                    # root package and http3: with GOEXPERIMENT=synctest the virtual-time tests run (seconds)
+                    pk = [".", "./integrationtests/self/", "./http3/"]
+                    label = "unreported, killed by the test suites (root, integrationtests/self, http3 under synctest)"
+                t = subprocess.run(["go", "test", "-mod=mod", "-vet=off", "-count=1", "-timeout", "300s"] + pk, cwd=repo, env=env, capture_output=True, text=True)
                 if t.returncode != 0:
-                    res["status"] = "unreported, killed by the package's unit tests"
+                    res["status"] = label
         finally:
             open(target, "wb").write(orig)
         return res
